@@ -68,7 +68,6 @@ def murmurAsModelled : MurmurSyn where
      ⟨.k, (.xor (.reg .k) (.shr (.reg .k) (.lit 33)))⟩,
      ⟨.k, (.mul (.reg .k) (.lit 14181476777654086739))⟩,
      ⟨.k, (.xor (.reg .k) (.shr (.reg .k) (.lit 33)))⟩]
-  defaultSeed := 1973
 
 
 end Vita.C03.USyn
